@@ -44,24 +44,41 @@ def truth_from_moments(mu, Sigma):
 def mk_factor(kind, rng, R, D, kappa=None, integer=False):
     """returns (object, Truth)."""
     L = lib()
+    # optional constructor arguments are omitted now and then (documented defaults: zeros / ones)
+    omit = rng.random(3) < 0.15
     if kind == "general":
         Lam = gen.psd_batch(rng, R, D)
-        nu = gen.vec(rng, R, D)
-        lb = gen.vec(rng, R)
-        obj = L.factor.ConjugateFactor(Lambda=J(Lam), nu=J(nu), ln_beta=J(lb))
+        nu = np.zeros((R, D)) if omit[0] else gen.vec(rng, R, D)
+        lb = np.zeros(R) if omit[1] else gen.vec(rng, R)
+        kw = {"Lambda": J(Lam)}
+        if not omit[0]:
+            kw["nu"] = J(nu)
+        if not omit[1]:
+            kw["ln_beta"] = J(lb)
+        obj = L.factor.ConjugateFactor(**kw)
         return obj, Truth(Lambda=Lam, nu=nu, ln_beta=lb)
     if kind == "rank1":
         v = gen.vec(rng, R, D)
-        g = rng.uniform(0.1, 2.0, R)
-        nu = gen.vec(rng, R, D)
-        lb = gen.vec(rng, R)
-        obj = L.factor.OneRankFactor(v=J(v), g=J(g), nu=J(nu), ln_beta=J(lb))
+        g = np.ones(R) if omit[2] else rng.uniform(0.1, 2.0, R)
+        nu = np.zeros((R, D)) if omit[0] else gen.vec(rng, R, D)
+        lb = np.zeros(R) if omit[1] else gen.vec(rng, R)
+        kw = {"v": J(v)}
+        if not omit[2]:
+            kw["g"] = J(g)
+        if not omit[0]:
+            kw["nu"] = J(nu)
+        if not omit[1]:
+            kw["ln_beta"] = J(lb)
+        obj = L.factor.OneRankFactor(**kw)
         Lam = g[:, None, None] * v[:, :, None] * v[:, None, :]
         return obj, Truth(Lambda=Lam, nu=nu, ln_beta=lb, v=v, g=g)
     if kind == "linear":
         nu = gen.vec(rng, R, D)
-        lb = gen.vec(rng, R)
-        obj = L.factor.LinearFactor(nu=J(nu), ln_beta=J(lb))
+        lb = np.zeros(R) if omit[1] else gen.vec(rng, R)
+        kw = {"nu": J(nu)}
+        if not omit[1]:
+            kw["ln_beta"] = J(lb)
+        obj = L.factor.LinearFactor(**kw)
         return obj, Truth(Lambda=np.zeros((R, D, D)), nu=nu, ln_beta=lb)
     if kind == "constant":
         lb = gen.vec(rng, R)
@@ -75,10 +92,16 @@ def mk_measure(kind, rng, R, D, kappa=None, scale=None):
     diag = kind.startswith("diag")
     if kind in ("measure", "diag_measure"):
         Lam = gen.spd_batch(rng, R, D, kappa, scale, diag=diag)
-        nu = gen.vec(rng, R, D)
-        lb = gen.vec(rng, R)
+        omit = rng.random(2) < 0.15
+        nu = np.zeros((R, D)) if omit[0] else gen.vec(rng, R, D)
+        lb = np.zeros(R) if omit[1] else gen.vec(rng, R)
         cls = L.measure.GaussianDiagMeasure if diag else L.measure.GaussianMeasure
-        obj = cls(Lambda=J(Lam), nu=J(nu), ln_beta=J(lb))
+        kw = {"Lambda": J(Lam)}
+        if not omit[0]:
+            kw["nu"] = J(nu)
+        if not omit[1]:
+            kw["ln_beta"] = J(lb)
+        obj = cls(**kw)
         mu, Sig = orc.moments_from_natural(Lam, nu)
         return obj, Truth(Lambda=Lam, nu=nu, ln_beta=lb, mu=mu, Sigma=Sig)
     if kind in ("pdf", "diag_pdf"):
@@ -126,16 +149,37 @@ def mk_conditional(kind, rng, R, Dy, Dx, kappa=None, zero_M=False, Du=2):
         Sig = gen.spd_batch(rng, R, Dy, kappa, diag=(kind == "identity_diag"))
         cls = C.ConditionalIdentityGaussianPDF if kind == "identity" else \
             C.ConditionalIdentityDiagGaussianPDF
-        obj = cls(**_cov_args(rng, Sig))
+        if rng.random() < 0.2:
+            S0 = gen.spd_batch(rng, R, Dy, 10.0, diag=(kind == "identity_diag"))
+            obj = cls(**_cov_args(rng, S0))
+            obj.update_Sigma(J(Sig))
+        else:
+            obj = cls(**_cov_args(rng, Sig))
         M = np.tile(np.eye(Dy)[None], (R, 1, 1))
         b = np.zeros((R, Dy))
         return obj, Truth(M=M, b=b, Sigma=Sig), kw
     if kind in ("full", "diag"):
         Sig = gen.spd_batch(rng, R, Dy, kappa, diag=(kind == "diag"))
         M = gen.lin_map(rng, R, Dy, Dx, zero=zero_M)
-        b = gen.vec(rng, R, Dy)
+        opt = rng.random(3)
+        if opt[0] < 0.1 and min(Dy, Dx) > 1 and not zero_M:
+            # a rank-deficient (but legal) mean map: drop the smallest singular direction
+            U, sv, Vt = np.linalg.svd(M, full_matrices=False)
+            sv[:, -1] = 0.0
+            M = np.einsum("rak,rk,rkb->rab", U, sv, Vt)
+        b_omitted = opt[1] < 0.15
+        b = np.zeros((R, Dy)) if b_omitted else gen.vec(rng, R, Dy)
         cls = C.ConditionalGaussianPDF if kind == "full" else C.ConditionalGaussianDiagPDF
-        obj = cls(M=J(M), b=J(b), **_cov_args(rng, Sig))
+        mkw = {"M": J(M)}
+        if not b_omitted:
+            mkw["b"] = J(b)
+        if opt[2] < 0.2:
+            # history: built with another noise covariance, then update_Sigma to the final one
+            S0 = gen.spd_batch(rng, R, Dy, 10.0, diag=(kind == "diag"))
+            obj = cls(**mkw, **_cov_args(rng, S0))
+            obj.update_Sigma(J(Sig))
+        else:
+            obj = cls(**mkw, **_cov_args(rng, Sig))
         return obj, Truth(M=M, b=b, Sigma=Sig), kw
     if kind == "nn":
         # R is the number of control inputs; the object itself has one noise covariance
